@@ -2,6 +2,7 @@ package main
 
 import (
 	"bufio"
+	"encoding/json"
 	"fmt"
 	"math/rand"
 	"net"
@@ -99,9 +100,9 @@ func (c *child) alive() bool {
 
 // crash program: ops, with a plan of where to kill
 type crashPlan struct {
-	Ops     []bt.Op
-	KillAt  map[int]string // step index (1-based, after that step's reply) -> "boundary"; or before issuing step i: "<point>#<n>" meaning restart the child armed to die inside step i
-	ArmAt   map[int]string
+	Ops    []bt.Op
+	KillAt map[int]string // step index (1-based, after that step's reply) -> "boundary"; or before issuing step i: "<point>#<n>" meaning restart the child armed to die inside step i
+	ArmAt  map[int]string
 }
 
 // runCrashProgram drives a real emulator process through the program, killing and restarting it as planned; returns the trace.
@@ -400,4 +401,37 @@ func checkC08(c *Ctx) {
 // classifyCrash names the known finding a rejected recovery belongs to, if any (by the specific history that fails).
 func classifyCrash(plan crashPlan, ev *bt.Op, tr []bt.Op) string {
 	return ""
+}
+
+func init() {
+	replayers["bt-crash"] = func(raw json.RawMessage) (bool, string) {
+		var cs struct {
+			Program []bt.Op        `json:"program"`
+			ArmAt   map[int]string `json:"arm_at"`
+			KillAt  map[int]string `json:"kill_after"`
+		}
+		if err := json.Unmarshal(raw, &cs); err != nil {
+			return false, "inconclusive: " + err.Error()
+		}
+		plan := crashPlan{Ops: cs.Program, KillAt: cs.KillAt, ArmAt: cs.ArmAt}
+		msg := "accepted: three re-executions of the program with its kill plan are behaviours of the specification"
+		for t := 0; t < 3; t++ {
+			tr := runCrashProgram(1, plan)
+			rj, _, err := validateBt(encodeTrace(tr))
+			if err != nil {
+				return false, "inconclusive: " + err.Error()
+			}
+			if len(rj) > 0 {
+				var ev *bt.Op
+				for k := range tr {
+					if tr[k].I == rj[0].I && tr[k].Ev == rj[0].Ev {
+						ev = &tr[k]
+					}
+				}
+				b, _ := json.Marshal(ev)
+				return true, fmt.Sprintf("rejected at step %d (%s, %s): %.1500s", rj[0].I, rj[0].Ev, rj[0].Why, b)
+			}
+		}
+		return false, msg
+	}
 }
